@@ -7,8 +7,9 @@
 (* termination timestamp, Drained / VolumesDetached / InstanceTerminating),*)
 (* the pods bound to the node, a VolumeAttachment, the provider's instance,*)
 (* the lifecycle controller's launch cache, the eviction queue (abstract:  *)
-(* membership only, Drain.tla has the detail), a logical clock, and the    *)
-(* ghosts everCreated / provGone.                                          *)
+(* membership only, Drain.tla has the detail), the clock abstracted into   *)
+(* two monotone facts (termination time passed, MinDrainTime passed), and  *)
+(* the ghosts everCreated / provGone / lostLaunch.                         *)
 (*                                                                         *)
 (* Granularity (DESIGN 2.1, fine): every API / provider call of the two    *)
 (* finalizers is its own action guarded by a program counter             *)
